@@ -155,6 +155,18 @@ func oracleStart(cs []comp, log []string, err error) string {
 func oneStart(r *corr.Run, cs []comp) {
 	rec := &recorder{}
 	a := build(cs, rec)
+	// a container may be started and closed repeatedly: the property must hold in every cycle
+	for cycle := 0; cycle < 3; cycle++ {
+		rec.evs = nil
+		if !oneCycle(r, cs, a, rec, cycle) {
+			return
+		}
+	}
+}
+
+// oneCycle runs Start (+ Close when Start succeeded) once; it reports whether the app was fully
+// started and closed, i.e. whether another cycle makes sense.
+func oneCycle(r *corr.Run, cs []comp, a *realapp.App, rec *recorder, cycle int) bool {
 	err := a.Start(context.Background())
 	op := "start " + wireAll(cs)
 	if len(cs) == 0 {
@@ -181,10 +193,10 @@ func oneStart(r *corr.Run, cs []comp) {
 	model := r.Ask(op)
 	r.Check("C20", "app.start", []string{op}, model, impl)
 	if msg := oracleStart(cs, rec.evs, err); msg != "" {
-		r.Violate("C20", "", "app.start.oracle", msg, []string{op})
+		r.Violate("C20", "", "app.start.oracle", fmt.Sprintf("cycle %d: %s", cycle, msg), []string{op})
 	}
 	nontrivial := len(cs) >= 2
-	r.Case(op, nontrivial)
+	r.Case(fmt.Sprintf("%d/%s", cycle, op), nontrivial)
 	r.Count("start." + strings.SplitN(outcome, ":", 2)[0])
 	if len(cs) >= 4 && outcome != "ok" {
 		r.Sample(map[string]string{"op": op, "impl": impl})
@@ -217,11 +229,13 @@ func oneStart(r *corr.Run, cs []comp) {
 			}
 		}
 		if evs(want) != evs(rec.evs) || (cerr != nil) != wantErr {
-			r.Violate("C20", "", "app.close.oracle", fmt.Sprintf("close log %q, property requires %q (err=%v)", evs(rec.evs), evs(want), cerr), []string{cop})
+			r.Violate("C20", "", "app.close.oracle", fmt.Sprintf("cycle %d: close log %q, property requires %q (err=%v)", cycle, evs(rec.evs), evs(want), cerr), []string{cop})
 		}
-		r.Case(cop, len(cs) >= 2)
+		r.Case(fmt.Sprintf("%d/%s", cycle, cop), len(cs) >= 2)
 		r.Count("close")
+		return true
 	}
+	return false
 }
 
 // enumerate all component lists of length n with every kind mix and every single failure point
